@@ -310,6 +310,22 @@ func init() {
 			g.Emit("gcslot", k, strconv.Itoa(g.R.Intn(1<<30)), strconv.Itoa(n))
 		}
 	})
+	// un-zeroed pointer-typed arenas (optdec fast-map mode) and stale stack addresses in heap state (VM encoder)
+	registerGen("c10.nullarena", func(g *Gen) {
+		sizes := []int{4, 8, 32, 64, 200, 5, 16, 100}
+		for i := 0; i < g.N; i++ {
+			n := sizes[i%len(sizes)]
+			if i >= len(sizes) && g.R.Intn(2) == 0 {
+				n = 1 + g.R.Intn(300)
+			}
+			g.Emit("nullarena", strconv.Itoa(g.R.Intn(1<<30)), strconv.Itoa(n))
+		}
+	})
+	registerGen("c10.vmrecurse", func(g *Gen) {
+		for i := 0; i < g.N; i++ {
+			g.Emit("vmrecurse", strconv.Itoa(g.R.Intn(1<<30)), strconv.Itoa(g.R.Intn(3)))
+		}
+	})
 	// with SONIC_SYNC_GC every opcode of a generated decoder collects twice: keep the documents small
 	registerGen("c10.gcstress.sync", func(g *Gen) {
 		for i := 0; i < g.N; i++ {
